@@ -25,7 +25,9 @@ async def run_all(ctx, sq, rnd, out, counts, N):
         if mode == 'originclose':
             oc.close()
             return True
-        await oc.send(peers.response_head(200, 'OK', [('Content-Length', '2'), ('Cache-Control', 'no-store')]) + b'ok')
+        fold = q.head.get('X-Fold') or ''
+        ct = {'tab': 'text/html\r\n\t;x=1', 'sp': 'text/html\r\n ;x=1', 'tab2': 'text/\r\n\thtml'}.get(fold, 'text/plain')
+        await oc.send(peers.response_head(200, 'OK', [('Content-Length', '2'), ('Cache-Control', 'no-store'), ('Content-Type', ct)]) + b'ok')
         return False
     o = await peers.Origin(rec, responder).start()
 
@@ -40,6 +42,12 @@ async def run_all(ctx, sq, rnd, out, counts, N):
         raw = ('%s %s HTTP/1.1\r\n' % ('POST' if mode == 'ok-post' else 'GET', url)).encode()
         for n_, v_ in hs:
             raw += ('%s: %s\r\n' % (n_, v_)).encode()
+        fold = r0.choice(['', '', 'tab', 'sp', 'tab2'])
+        if fold:
+            raw += b'X-Fold: ' + fold.encode() + b'\r\n'
+        ua = r0.choice([b'plain', b'a\r\n\tb', b'a\r\n b', b'a\r\n\t\r\n\tb'])       # obs-fold starting with HTAB / SP (all folds of a message alike)
+        if fold in ('', 'tab', 'tab2') and b'\r\n ' not in ua or fold == 'sp' and b'\r\n\t' not in ua:
+            raw += b'User-Agent: ' + ua + b'\r\n'
         raw += b'X-C: ' + val + b'\r\n'
         if mode == 'ok-post':
             raw += b'Content-Length: 3\r\n\r\nabc'
@@ -54,7 +62,7 @@ async def run_all(ctx, sq, rnd, out, counts, N):
         else:
             await c.response('GET', 8.0)
             c.close()
-        counts[vid] = {'value': val, 'mode': mode}
+        counts[vid] = {'value': val, 'mode': mode, 'fold': fold}
     await escen.gather_limited([one(i) for i in range(N)], limit=10)
     await asyncio.sleep(0.5)
     await o.stop()
@@ -71,6 +79,10 @@ def run(ctx):
     for k, ch in KINDS.items():
         extra += 'logformat f%s id=%%{X-Verif-Id}>h V=%%%s{X-C}>h\n' % (k, ch)
         extra += 'access_log stdio:%s/q-%s.log f%s\n' % (sq.run, k, k)
+    # codes that are written without quoting (%mt) or with the "raw" option ('), framed by markers: a value that still contains a
+    # line break when it reaches the logger splits the record
+    extra += "logformat ffold id=%{X-Verif-Id}>h MT=%mt UA=%'{User-Agent}>h END\n"
+    extra += 'access_log stdio:%s/q-fold.log ffold\n' % sq.run
     lines = [l for l in sq.conf_text.split('\n') if l and not l.startswith('http_access')]
     acc = [l for l in sq.conf_text.split('\n') if l.startswith('http_access')]
     sq.conf_text = '\n'.join(lines) + '\n' + extra + '\n'.join(acc) + '\n'
@@ -105,6 +117,21 @@ def run(ctx):
                     continue
                 cases.append({'kind': k, 's': list(info['value']), 'q': list(q), 'n': 1})
                 meta.append((k, vid, info, 'field', q))
+    # the marker-framed log: one physical line per transaction, beginning with id= and ending with END
+    p = os.path.join(sq.run, 'q-fold.log')
+    flines = (open(p, 'rb').read() if os.path.exists(p) else b'').split(b'\n')
+    whole = {}
+    for line in flines:
+        if line.startswith(b'id='):
+            vid = line[3:].split(b' ', 1)[0].decode('latin-1')
+            whole.setdefault(vid, []).append(line.rstrip(b'\r').endswith(b' END'))
+    stray = sum(1 for line in flines if line and not line.startswith(b'id='))
+    for vid, info in counts.items():
+        got = whole.get(vid, [])
+        n = len(got) + sum(1 for okline in got if not okline)        # a line that lost its END marker was split: counts twice
+        cases.append({'kind': 'count', 'n': n, 's': [], 'q': []})
+        meta.append(('fold', vid, info, 'count', [b'split' if not okline else b'whole' for okline in got]))
+    ctx.cov['stray_lines_in_framed_log'] = stray
     prej, irej = ucheck.conformance(ctx, os.path.join(SPEC, 'Conf_LogQuote.tla'), os.path.join(SPEC, 'Conf_LogQuote.cfg'), cases, 'logquote')
     ctx.log('%d transactions, %d log cases; P-rejected %d, I-rejected %d' % (len(counts), len(cases), len(prej), len(irej)))
     for i in prej[:5]:
